@@ -304,6 +304,25 @@ fn engine_level(r: &mut Rng, sm: &mut Summary) {
     let final_tags: &[&str] = match r.below(5) { 0 => &["t1"], 1 => &["t2"], 2 => &["t1", "t2"], 3 => &["t3", "t2"], _ => &[] };
     whole.use_tags(final_tags);
     if r.chance(1, 2) { piecewise.use_tags(final_tags) } else { piecewise.enable_tags(final_tags) }
+    // further tag operations on the engine with overlapping lists (a tag that is already enabled
+    // next to one that is not; a disabled tag enabled again); the whole-list engine gets the
+    // resulting set in one use_tags call
+    if r.chance(1, 2) {
+        let mut set: BTreeSet<String> = final_tags.iter().map(|s| s.to_string()).collect();
+        for _ in 0..r.range(1, 4) {
+            let k = r.range(1, 3);
+            let ts: Vec<&str> = (0..k).map(|_| r.pick(&["t1", "t2", "t3", "zz"])).collect();
+            if r.chance(2, 3) {
+                piecewise.enable_tags(&ts);
+                set.extend(ts.iter().map(|s| s.to_string()));
+            } else {
+                piecewise.disable_tags(&ts);
+                for t in &ts { set.remove(*t); }
+            }
+        }
+        let v: Vec<&str> = set.iter().map(|s| s.as_str()).collect();
+        whole.use_tags(&v);
+    }
     for _ in 0..4 {
         let url = if r.chance(1, 2) { { let k = r.below(lines.len()); gen::url_for(r, &lines[k]) } } else { gen::url(r) }.replace('*', "1");
         let Ok(req) = Request::new(&url, "https://a.com/page", r.pick(&["script", "document", "image"])) else { continue };
